@@ -548,7 +548,9 @@ def _run_ext(case, out):
     ortho = case.get('orthogonal')
     if ortho:
         lower = []
-        for k in range(int(ortho['n'])):
+        if ortho.get('copy_only'):
+            lower = [psi.copy()]
+        for k in range(0 if ortho.get('copy_only') else int(ortho['n'])):
             p_k = init_state(case, M)
             o_k = {'mixer': True, 'trunc_params': {'chi_max': 64, 'svd_min': 1e-13}, 'max_sweeps': 24, 'min_sweeps': 8, 'max_E_err': 1e-13,
                    'mixer_params': {'amplitude': 1e-2, 'decay': 2.0, 'disable_after': 6}, 'max_trunc_err': 10.0, 'diag_method': 'lanczos',
